@@ -185,13 +185,11 @@ def dualPartialFit (K : Kernel X Wt α μ) (cfg : SearchCfg μ θ) (th0 lb : θ)
     (veto : DualState Wt → X → Nat → Bool) (s : DualState Wt) (xs : List X) : DualState Wt :=
   xs.foldl (dualTrainStep K cfg th0 lb pos veto) s
 
-/-- What `BaseART.fit` resets on a `DualVigilanceART`: `W` and `labels_` (they
-delegate to the base module) and the wrapper's own `sample_counter_`.
-`weight_sample_counter_ = []` lands on the wrapper, so the base module's
-per-category counters survive; `map` is replaced only when the first sample
-arrives. -/
+/-- What `BaseART.fit` resets on a `DualVigilanceART`: `W`, `labels_` and (since /repo f2707fe, finding F34)
+`weight_sample_counter_` — all three delegate to the base module — and the wrapper's own `sample_counter_`;
+`map` is replaced only when the first sample arrives. -/
 def dualReset (s : DualState Wt) : DualState Wt :=
-  { base := { W := [], cnt := s.base.cnt, n := 0, labels := [] }, map := s.map }
+  { base := { W := [], cnt := [], n := 0, labels := [] }, map := s.map }
 
 /-- `fit` (single epoch) -/
 def dualFit (K : Kernel X Wt α μ) (cfg : SearchCfg μ θ) (th0 lb : θ) (pos : α → Bool)
